@@ -14,6 +14,7 @@ SAN = ['-O1', '-g', '-fno-omit-frame-pointer', '-fsanitize=address,undefined',
 VARIANTS = {
     'asan': ('gcc', SAN + ['-D' + GUARD]),
     'plain': ('gcc', ['-O2', '-D' + GUARD]),
+    'cov': ('gcc', ['-O0', '-g', '--coverage', '-D' + GUARD]),
     'msan': ('clang', ['-O1', '-g', '-fno-omit-frame-pointer', '-fsanitize=memory',
                        '-fsanitize-memory-track-origins', '-D' + GUARD]),
 }
@@ -94,7 +95,7 @@ def build(variant='asan', probe=None):
         if rc != 0:
             raise HarnessError('build failed (%s): %s\n%s' % (variant, ' '.join(j), err[-2000:]))
     exe = os.path.join(d, 'probe' if probe else 'vi')
-    rc, err = _cc([cc] + [f for f in flags if f.startswith('-fsanitize') or f == '-g'] + ['-o', exe] + objs)
+    rc, err = _cc([cc] + [f for f in flags if f.startswith('-fsanitize') or f in ('-g', '--coverage')] + ['-o', exe] + objs)
     if rc != 0:
         raise HarnessError('link failed (%s): %s' % (variant, err[-2000:]))
     _built[key] = exe
